@@ -43,6 +43,11 @@ Proof. exact l002_fix_clears. Qed.
 Theorem C17_l003_fix_clears : forall t, i_l003_check (i_l003_fix t) = [].
 Proof. exact (fun t => l003_fix_clears_mx space 1 t (le_n 1)). Qed.
 
+Theorem C17_l007_fix_clears : forall t, i_l007_check (i_l007_fix t) = [].
+Proof. exact (l007_fix_clears letter digit upper keywords_tab up_letter up_noquote up_idem). Qed.
+(* L010: check (fix t) = [] is not proved (the checker works on byte offsets of rewritten parts); it is evaluated in Coq on
+   every correspondence case and checked on the implementation by the re-lint oracle *)
+
 (* ---- exact flagging, at an existing line and column ---- *)
 Theorem C17_l001_check_exact : forall t n col, wft t ->
   In (n, col) (l001_check t) <->
@@ -175,6 +180,7 @@ Print Assumptions C17_format_idempotent.
 Print Assumptions C17_l001_fix_clears.
 Print Assumptions C17_l002_fix_clears.
 Print Assumptions C17_l003_fix_clears.
+Print Assumptions C17_l007_fix_clears.
 Print Assumptions C17_l001_check_exact.
 Print Assumptions C17_l001_location.
 Print Assumptions C17_l005_check_exact.
